@@ -122,7 +122,8 @@ def check_keep(variant: str, hw: str, n: int, bells: Tuple[str, ...], others: in
             best = max(BELLS, key=lambda b: ex.qs.fidelity_with([phys, d["remote"]], qsim.BELL[b]))
             what = ("correction for pair %d missing/wrong/applied to another qubit" % i) if recv and expect else \
                    ("pair %d was altered although nothing may be corrected" % i)
-            add_violation(part, f"pair-state/{hw}/{variant}/{'expect' if (recv and expect) else 'no-correction'}/{fmt}",
+            alone = "/single-pair-alone" if (n == 1 and others == 0) else ""     # (the open generic-hardware finding needs n > 1 or another live qubit)
+            add_violation(part, f"pair-state/{hw}/{variant}/{'expect' if (recv and expect) else 'no-correction'}/{fmt}{alone}",
                           f"{what}: link delivered {bells[i]}, qubit {i} with its partner is {best} (fidelity with {want}: {f:.3f})",
                           case, {"pair": i, "fidelities": {b: round(ex.qs.fidelity_with([phys, d['remote']], qsim.BELL[b]), 6) for b in BELLS}})
             return
